@@ -5,18 +5,43 @@ From SNT Require Import Base.Outcome Base.Report Encoder.Base64.
 Import ListNotations.
 Local Open Scope N_scope.
 
-Inductive res := ROk (l : list N) | RErr | RPanic.
+(* RErr carries what the successful calls had delivered before the failing one (nothing for the encoder) *)
+Inductive res := ROk (l : list N) | RErr (partial : list N) | RPanic.
 
 Definition res_eqb (a b : res) : bool :=
   match a, b with
   | ROk x, ROk y => nlist_eqb x y
-  | RErr, RErr => true
+  | RErr x, RErr y => nlist_eqb x y
   | RPanic, RPanic => true
   | _, _ => false
   end.
 
+Definition is_err (r : res) : bool := match r with RErr _ => true | _ => false end.
+
 Definition res_of (o : outcome (list N)) : res :=
-  match o with Ok l => ROk l | Err _ => RErr | Panic _ => RPanic | OutOfFuel => RPanic end.
+  match o with Ok l => ROk l | Err _ => RErr [] | Panic _ => RPanic | OutOfFuel => RPanic end.
+
+Definition res_of_partial (o : list N * outcome unit) : res :=
+  match o with
+  | (a, Ok _) => ROk a
+  | (a, Err _) => RErr a
+  | (_, Panic _) => RPanic
+  | (_, OutOfFuel) => RPanic
+  end.
+
+Fixpoint is_prefix (p l : list N) : bool :=
+  match p, l with
+  | [], _ => true
+  | x :: p', y :: l' => (x =? y) && is_prefix p' l'
+  | _ :: _, [] => false
+  end.
+
+(* the bytes of the complete 4-character groups of a text (the incomplete tail dropped) *)
+Definition whole_groups (text : list N) : list N :=
+  match spec_dec (S (length text)) (firstn (Nat.mul 4 (Nat.div (length text) 4)) text) with
+  | Some l => l
+  | None => []
+  end.
 
 Inductive c14_case :=
 | Enc (chunks : list (list N)) (impl : res)
@@ -34,9 +59,11 @@ Definition c14_check (c : c14_case) : bool * bool :=
       (res_eqb (ROk (encode_chunks chunks)) impl,
        res_eqb (ROk (rfc4648 (concat chunks))) impl)
   | Dec orig text sched dests impl =>
-      (res_eqb (res_of (decode_all text (nats sched) (nats dests))) impl,
+      (res_eqb (res_of_partial (decode_all_partial text (nats sched) (nats dests))) impl,
        negb (res_eqb impl RPanic)
-       && (if Nat.eqb (Nat.modulo (length text) 4) 0 then true else res_eqb impl RErr)
+       && (if Nat.eqb (Nat.modulo (length text) 4) 0 then true else is_err impl)
+       (* whatever was handed out before an error is a prefix of the decoding of the complete groups *)
+       && match impl with RErr p => is_prefix p (whole_groups text) | _ => true end
        && match orig with
           | Some x => nlist_eqb text (rfc4648 x) && res_eqb impl (ROk x)
           | None => true
